@@ -32,7 +32,9 @@ def build(chk):
         P.ctx.assume(z3.And(kl >= -lim, kl <= lim, ku >= -lim, ku <= lim))
         lo, hi = FV('fin', z3.ToReal(kl) / 2), FV('fin', z3.ToReal(ku) / 2)
         bound = {'finite': (lo, hi), 'none': None, 'upper-inf': (lo, PINF), 'lower-inf': (NINF, hi), 'both-inf': (NINF, PINF), 'nan': (lo, NAN)}[bshape]
-        spec = Inst(objective=None, vars=[Var(3, kind, bound, name='n'), Var(10, 3)])
+        order = [[3, 10], [10, 3], [4, 3]][P.choose(3)]     # listing order of the decision variables (ids need not be sorted)
+        other = [i for i in order if i != 3][0]
+        spec = Inst(objective=None, vars=[Var(i, kind, bound, name='n') if i == 3 else Var(i, 3) for i in order])
         inst = B.instance(spec)
         ctxk = P.ctx
         ctxk.log2_kmax = KMAX + 1
@@ -40,7 +42,7 @@ def build(chk):
         def witness(model):
             idict = chk.conv.to_dict(B.instance(spec), MSGI, model)
             case = {'op': 'log_encode', 'instance': chk.hexdict(idict, MSGI), 'id': target, 'isolated': True}
-            v = idict['decision_variables'][0]
+            v = [x for x in idict['decision_variables'] if x['id'] == 3][0]
             b = v['bound']
             import math
             err_expected = target != 3 or v['kind'] != 2 or b is None or not all(map(math.isfinite, (b['lower'], b['upper']))) or math.ceil(b['lower']) > math.floor(b['upper'])
@@ -53,6 +55,9 @@ def build(chk):
                 if 'ok' not in res:
                     return True
                 lin = chk.unhex(res['ok']['linear'], 'ommx.v1.Linear')
+                after_ids = [x['id'] for x in chk.unhex(res['ok']['instance'], MSGI)['decision_variables']]
+                if len(set(after_ids)) != len(after_ids):
+                    return True       # a registered binary reuses an existing id
                 lo_i, hi_i = math.ceil(b['lower']), math.floor(b['upper'])
                 cs = [t['coefficient'] for t in lin['terms']]
                 if hi_i - lo_i > 4096:
@@ -96,10 +101,11 @@ def build(chk):
         conj = [f_cmp('le', L, U), feq(const, L)]
         after = rd.instance(inst)
         newvars = after['vars'][2:]
-        conj.append([v['id'] for v in after['vars'][:2]] == [3, 10])
-        # registered binaries: fresh consecutive ids above all defined ids, kind binary, bound [0,1], tagged [encoded id, bit index]
-        conj.append([v['id'] for v in newvars] == [11 + i for i in range(len(terms))])
-        conj.append([t[0] for t in terms] == [11 + i for i in range(len(terms))])
+        conj.append([v['id'] for v in after['vars'][:2]] == order)
+        # registered binaries: new unique ids (distinct, not used before), kind binary, bound [0,1], tagged [encoded id, bit index]
+        newids = [v['id'] for v in newvars]
+        conj.append(len(set(newids)) == len(newids) and not (set(newids) & set(order)))
+        conj.append([t[0] for t in terms] == newids)
         for i, v in enumerate(newvars):
             dv = deref(eng.field(inst, 'v1::Instance', 'decision_variables')).items[2 + i]
             subs = list(deref(eng.field(dv, 'v1::DecisionVariable', 'subscripts')).items)
@@ -167,7 +173,7 @@ def validate(chk, le):
         kind = rng.choice([2, 2, 2, 1, 3])
         inst = {'description': None, 'decision_variables': [
             {'id': 3, 'kind': kind, 'bound': None if rng.random() < .1 else {'lower': lo, 'upper': hi}, 'name': None, 'subscripts': [], 'parameters': [], 'description': None, 'substituted_value': None},
-            {'id': 10, 'kind': 3, 'bound': None, 'name': None, 'subscripts': [], 'parameters': [], 'description': None, 'substituted_value': None}],
+            {'id': 10, 'kind': 3, 'bound': None, 'name': None, 'subscripts': [], 'parameters': [], 'description': None, 'substituted_value': None}][::rng.choice([1, -1])],
             'objective': None, 'constraints': [], 'sense': 1, 'parameters': None, 'constraint_hints': None, 'removed_constraints': [], 'decision_variable_dependency': []}
         tid = rng.choice([3, 3, 3, 10, 4])
         case = {'op': 'log_encode', 'instance': chk.hexdict(inst, MSGI), 'id': tid}
